@@ -69,13 +69,15 @@ def run(ctx):
     ctx.rule("R15.4", "MERGE-WINDOW: mergeEvent, evaluated over small histories (0..3 stored events, ages 0..7 s, two addresses), merges into exactly the newest stored event that has the incoming address and lies before the first event more than 2 seconds old")
 
     # ---- R15.1 (rewind / replay): evaluated on a symbolic event
-    for q, want in (("UndoHistoryImpl::rewind", 1), ("UndoHistoryImpl::replay", 2)):
+    WORLDS = [None] + [{"tag": t_, "same": s_} for t_ in "ifc" for s_ in (False, True)]
+    for q, want, world in [(q_, w_, wd_) for q_, w_ in (("UndoHistoryImpl::rewind", 1), ("UndoHistoryImpl::replay", 2)) for wd_ in WORLDS]:
         fn = u.function(q)
-        r = UE.Run(u)
+        r = UE.Run(u, world=world)
         try:
             r.run(fn, {u.params(fn)[0]["id"]: ("msg", "E")})
         except FD.Unknown as e:
             raise AnalysisBroken("R15.1: %s not evaluable: %s" % (q, e))
+        wname = "" if world is None else " [event of type '%s', old value %s new value]" % (world["tag"], "==" if world["same"] else "!=")
         sent = None
         if len(r.callbacks) == 1:
             cbk = r.callbacks[0]
@@ -88,7 +90,9 @@ def run(ctx):
                         "types": list(sent["types"]) if isinstance(sent["types"], tuple) else sent["types"],
                         "arguments": [list(x) if isinstance(x, tuple) else x for x in sent["args"]]})
             ok = sent["address"] == ("arg", "E", 0) and sent["types"] == ("types", "E", 2) and sent["args"][:1] == [("arg", "E", want)]
-        ctx.ob("R15.1", q.split("::")[-1], ok, site=A.where(fn), detail=det,
+        det["world"] = wname.strip() or "symbolic event"
+        ctx.ob("R15.1", q.split("::")[-1] + wname, ok, site=A.where(fn), detail=det,
+               key="R15.1:%s%s" % (q.split("::")[-1], wname),
                what="%s hands the callback %s; the event is `s<t><t> path old new`, so the message must be (address = argument 0, type string at offset 2, value = argument %d)" % (
                    q.split("::")[-1], {k_: v_ for k_, v_ in det.items() if k_ in ("address", "types", "arguments", "callback_invocations")}, want))
 
